@@ -31,6 +31,23 @@ Proof.
 Qed.
 Print Assumptions C12_live_cover_partial.
 
+(* live: the listing reaches now (the fuel of the model loop is enough: this is the termination argument of the
+   while loop, which ends because every pass over the definition advances by the total duration > 0) ... *)
+Theorem C12_live_reaches_now :
+  forall ds fta elapsed, Forall (fun d => 0 <= d) ds -> 0 < sumz ds -> 0 <= fta -> fta <= elapsed ->
+  exists p, In p (live_periods ds fta elapsed) /\ p_start p <= elapsed < p_start p + p_dur p.
+Proof. exact live_reaches_now. Qed.
+Print Assumptions C12_live_reaches_now.
+
+(* ... so, with contiguity and the first Period containing the window start, every instant of the time-shift
+   window [firstAvailableTime, now] lies in a listed Period: the full cover statement *)
+Theorem C12_live_cover :
+  forall ds fta elapsed, Forall (fun d => 0 <= d) ds -> 0 < sumz ds -> 0 <= fta -> fta <= elapsed ->
+  forall t, fta <= t <= elapsed ->
+  exists q, In q (live_periods ds fta elapsed) /\ p_start q <= t < p_start q + p_dur q.
+Proof. exact live_covers_window. Qed.
+Print Assumptions C12_live_cover.
+
 (* live: ids (period, repetition) are unique in the listing *)
 Theorem C12_ids_unique :
   forall ds fta elapsed, NoDup (map (fun p => (p_pos p, p_loop p)) (live_periods ds fta elapsed)).
